@@ -140,7 +140,7 @@ def _exec(sim, op):
         _quiesce(sim, op.get("budget", 60.0), op.get("passes", 3))
         if not op.get("noprobe"):
             sim.probe()
-        if op.get("xprobe"):
+        if op.get("xprobe") and sim.quiescent():      # (a daemon that is legitimately busy may refuse)
             # C10: a harmless exclusive request must be accepted once everything is idle
             for w in list(sim.arb.watchers)[:1]:
                 sim.request("set", {"name": w.name, "options": {"numprocesses": w.numprocesses},
@@ -195,6 +195,9 @@ def gen_watchers(rng, n, profile):
             w["autostart"] = False
         if profile.get("stop_children") and rng.random() < 0.5:
             w["stop_children"] = True
+        if profile.get("max_age") and rng.random() < profile["max_age"]:
+            w["max_age"] = rng.choice([1, 2])             # seconds; expiry is one of C03's termination causes
+            w["max_age_variance"] = 0
         if profile.get("stop_signal") and rng.random() < 0.4:
             w["stop_signal"] = rng.choice([SIGINT, SIGQUIT, SIGUSR1, SIGHUP])
         if profile.get("hooks"):
